@@ -44,6 +44,8 @@ pub enum Behaviour {
     /// stop after this many protocol steps of a login
     StopAfter(u8),
     Garbage,
+    /// completes a status exchange (request, ping) and then keeps its socket open without closing
+    FinishThenLinger,
 }
 
 #[derive(Clone, Debug, Serialize, Deserialize, PartialEq)]
@@ -371,6 +373,28 @@ fn run_scenario(case: &Case, port: u16, scn: &Scn) -> Result<(), (String, String
                 Behaviour::Garbage => {
                     let _ = c.write_raw(&[0x05, 0x7f, 0x01, 0x02]);
                 }
+                Behaviour::FinishThenLinger => {
+                    // the exchange is over within milliseconds; the server closes at once, and certainly by the deadline.
+                    // Its FIN alone proves nothing (it may still hold the socket and read): after the deadline the
+                    // client writes again, and a server that has let go of the connection answers with a reset
+                    if c.status_exchange("linger.example.org", timeout).is_err() {
+                        return Err(("inconclusive".into(), "status exchange failed".into()));
+                    }
+                    let wait = (timeout + SLACK).saturating_sub(t0.elapsed());
+                    std::thread::sleep(wait);
+                    let mut reset = false;
+                    for _ in 0..4 {
+                        if c.write_raw(&[0x01, 0x00]).is_err() {
+                            reset = true;
+                            break;
+                        }
+                        std::thread::sleep(Duration::from_millis(60));
+                    }
+                    if !reset {
+                        return Err(("connection-held-after-completion-past-the-deadline".into(), format!("timeout {timeout:?}: {:?} after connecting, a client that had finished its status exchange and kept its socket open could still write to the server without a reset", t0.elapsed())));
+                    }
+                    return Ok(());
+                }
                 Behaviour::Dribble => {
                     let f = Pkt::Handshake { protocol: 770, host: "slow.example.org".into(), port: 25565, next: 2 }.frame();
                     for b in f.iter().cycle().take(400) {
@@ -635,7 +659,7 @@ impl Check for C14 {
             Just(FrameLen::AliasedPing),
             any::<u8>().prop_map(FrameLen::OverlongPrefixFlood),
         ];
-        let beh = prop_oneof![Just(Behaviour::Silent), Just(Behaviour::Dribble), any::<u8>().prop_map(Behaviour::StopAfter), Just(Behaviour::Garbage)];
+        let beh = prop_oneof![Just(Behaviour::Silent), Just(Behaviour::Dribble), any::<u8>().prop_map(Behaviour::StopAfter), Just(Behaviour::Garbage), Just(Behaviour::FinishThenLinger)];
         let scn = prop_oneof![
             4 => fl.prop_map(Scn::Frame),
             3 => (any::<bool>(), prop::bool::weighted(0.25)).prop_map(|(inside, other_secret)| Scn::Cookie { inside, other_secret }),
